@@ -5,6 +5,7 @@ import Upa.Impl.Rep
 import Upa.Impl.FilePath
 import Upa.Impl.SetRepApi
 import Upa.Impl.ParseRep
+import Upa.Impl.UpdateRep
 import Upa.Spec.Api
 import Upa.Spec.Form
 /-
@@ -489,10 +490,6 @@ def parseRawRep (toks : List String) : Option Rep :=
 def rawRepStr (r : Rep) : String :=
   s!"{hx r.norm} {natList r.partEnd} h{b01 r.hostNotNull}p{b01 r.portNotNull}q{b01 r.queryNotNull}f{b01 r.fragmentNotNull}o{b01 r.opaquePath}t{r.hostType} {r.segCount} {match r.schemeIdx with | some i => toString i | none => "-1"}"
 
-/-- url_search_params::update (url_search_params-inl.h:25-40) on the representation -/
-def updateRep (r : Rep) (ser : List Nat) : Rep :=
-  if ser.isEmpty then stripTrailingSpacesRep (clearPart r QUERY) else writePartFlag r QUERY ser
-
 /-- a `parse` step: the operational model of the parser driving `url_serializer` (Impl/ParseRep.lean) on the input
     and the raw representation of the base must give the raw representation the C++ object has afterwards (`-` =
     the parse failed), and that must be a representation of the record the record-level parser computes -/
@@ -544,7 +541,7 @@ def setrepStep (idna : Idna) (line : String) : String :=
         else if r.fill != (layout u').fill || okR != okC then s!"RECORD-MISMATCH layout-of-record={rawRepStr (layout u')} ret={b01 okR}"
         else "ok"
       else if kind == "update" then
-        let r := updateRep b (unhexBytes units)
+        let r := updateRepSer b (unhexBytes units)   -- = updateRep on the list (C05f_update_ser)
         if r != a then s!"MISMATCH model={rawRepStr r}" else "ok"
       else if kind == "none" then
         if b != a then s!"MISMATCH model={rawRepStr b}" else "ok"
